@@ -503,7 +503,11 @@ class Registry:
             if isinstance(en, tuple) and en[0].endswith("!"):
                 continue        # property-derived clause: checked against the code, never assumed by callers
             en_text = en[1] if isinstance(en, tuple) else en
-            run.assume(zbool(self.eval_clause(it, en_text, cf, result=result, old=old)))
+            ev_ = self.eval_clause(it, en_text, cf, result=result, old=old)
+            if (ev_ is False or (is_z3(ev_) and z3.is_false(ev_))) and getattr(run, "n_choose", 0) == n_choose0:
+                raise Unsupported("the contract of %s cannot hold at this call site: postcondition '%s' is false here"
+                                  % (fi.qualname, en_text[:120]), node)
+            run.assume(zbool(ev_))
         if getattr(run, "n_choose", 0) > n_choose0 and not run.feasible(z3.BoolVal(True)):
             # the postconditions materialised lazily represented results (None or an object): this combination of
             # choices is excluded by the contract itself -- the path ends, the other choices are explored separately
